@@ -364,8 +364,7 @@ func ruleMergeZeroTrip(c *Ctx, r *R) {
 	for _, call := range own {
 		for _, g := range guardsOf(call.Block()) {
 			if cf, ok := g.asCmp(); ok {
-				x := path(cf.x)
-				isLen := strings.HasPrefix(x, "len(") && strings.Contains(x, inP.Name())
+				isLen := isLenOf(cf.x, inP)
 				if isLen && ((cf.op == token.EQL && isConstInt(cf.y, 0)) || (cf.op == token.LSS && isConstInt(cf.y, 1)) || (cf.op == token.LEQ && isConstInt(cf.y, 0))) {
 					if len(call.Call.Args) == 2 && isNilConst(call.Call.Args[1]) {
 						okZero = true
@@ -421,7 +420,7 @@ func ruleMergeCloseOnce(c *Ctx, r *R) {
 				}
 				if cf, ok := gd.asCmp(); ok && cf.op == token.EQL {
 					xs := path(cf.x)
-					if strings.Contains(xs, "AddUint32") && strings.Contains(xs, "nDone") && strings.HasPrefix(path(cf.y), "len(") {
+					if strings.Contains(xs, "AddUint32") && strings.Contains(xs, "nDone") && isLenOf(cf.y, bi.fn.Params[0]) {
 						lastOut = true
 					}
 					if strings.Contains(xs, "LoadUint32") && strings.Contains(xs, "closeOnce") && isConstInt(cf.y, 0) {
